@@ -112,9 +112,10 @@ class GValid:
                     self.features.add("rule_elided")
             self.features |= cx.features
             rules.append(Rule(nm, parenthesize(rx), elided))
-        for nm in self.rnames[1:]:
-            if nm not in self.referenced:
-                raise _Retry()
+        # a rule nobody refers to is only legal as a `part` (entry point of its own)
+        self.unref = [nm for nm in self.rnames[1:] if nm not in self.referenced]
+        if len(self.unref) > 1 or (self.unref and rng.random() < 0.5):
+            raise _Retry()
         # declarations
         alltoks = self.toks + self.extra
         decl_tokens = []
@@ -142,11 +143,13 @@ class GValid:
                     if n.k == "name" and n.v in self.sym_of and rng.random() < 0.4:
                         n.k, n.v = "sym", self.sym_of[n.v]
         parts = []
-        if len(self.rnames) > 1 and rng.random() < cfg["p_parts"]:
-            cands = [nm for nm in self.rnames[1:]]
+        if len(self.rnames) > 1 and (rng.random() < cfg["p_parts"] or self.unref):
+            cands = [nm for nm in self.rnames[1:] if nm not in self.unref]
             rng.shuffle(cands)
-            parts = cands[:rng.randint(1, min(2, len(cands)))]
+            parts = list(self.unref) + cands[:rng.randint(0 if self.unref else 1, min(2, len(cands)))]
             self.features.add("parts")
+            if self.unref:
+                self.features.add("unreferenced_part")
         half = len(decl_tokens) // 2
         decls = []
         if half and rng.random() < 0.4:
@@ -183,8 +186,13 @@ class GValid:
     def _tok(self):
         return name(self.rng.choice(self.toks))
 
-    def _lead(self):
-        """leading token of a branch/body: unique with high probability"""
+    def _lead(self, cx=None):
+        """leading element of a branch/body: a token that is unique with high probability, sometimes a rule"""
+        if cx is not None and self.rng.random() < 0.2:
+            rr = self._ruleref(cx, first=True)
+            if rr is not None:
+                cx.features.add("rule_leads_branch_or_body")
+                return rr
         if self.rng.random() < 0.75:
             return name(self._fresh())
         return self._tok()
@@ -201,7 +209,7 @@ class GValid:
         if not cands:
             return None
         fresh = [c for c in cands if c not in self.referenced]
-        nm = rng.choice(fresh) if fresh and rng.random() < 0.8 else rng.choice(cands)
+        nm = rng.choice(fresh) if fresh and rng.random() < 0.65 else rng.choice(cands)
         self.referenced.add(nm)
         return name(nm)
 
@@ -264,8 +272,8 @@ class GValid:
                     items.append(create(mk, rng.choice(self.node_names)))
                     cx.features.add("marker_twice")
         # whole-rule creation: only in elided rules, never in Pratt rules, never inside a pending marker
-        if (cx.elide_mode in ("uncond", "cond") and not cx.pratt and not cx.in_choice
-                and rng.random() < cfg["p_whole_create"] and getattr(cx, "marker_depth", 0) == 0):
+        if (not cx.pratt and not cx.in_choice and getattr(cx, "marker_depth", 0) == 0
+                and rng.random() < (cfg["p_whole_create"] if cx.elide_mode in ("uncond", "cond") else cfg["p_whole_create"] * 0.3)):
             items.append(create(None, rng.choice(self.node_names + [None, None])))
             cx.features.add("whole_create")
         if len(items) == 1:
@@ -284,7 +292,7 @@ class GValid:
             nb = rng.choice([2, 2, 3])
             ops = []
             for i in range(nb):
-                lead = self._lead()
+                lead = self._lead(cx)
                 b = self._concat(cx, depth - 1, lead=lead)
                 pr = rng.random()
                 if pr < cfg["p_true_pred"]:
@@ -299,7 +307,7 @@ class GValid:
         if r < 0.52 + 0.18 * (cfg["p_choice"] / 0.3) and not cx.in_choice and not cx.choice_safe_rule:
             return self._choice(cx, depth)
         # loops / option
-        lead = self._lead()
+        lead = self._lead(cx)
         md = getattr(cx, "marker_depth", 0)
         body = self._concat(cx, depth - 1, lead=lead)
         if rng.random() < 0.35:
@@ -492,18 +500,11 @@ def shape_hazards(g: Grammar, rs: RefSets):
                     bb = b
                     while bb.k == "paren" and bb.ops:
                         bb = bb.ops[0]
-                    if bb.k == "concat" and bb.ops[0].k == "pred" and bb.ops[0].v != "t":
-                        if rs.predict(b, conv=True) & eofs:
-                            out.append("F3_guarded_nullable_branch")
+                    pass      # (F3: a guarded branch predicted by end of input is repaired: part of the main population now)
             if n.k in ("star", "plus", "opt") and rs.nullable(n.ops[0]):
                 out.append("nullable_loop_body")
-            if r.name == start and n.k in ("rename", "create"):
-                out.append("F5_node_op_in_start_rule")
-            if n.k == "create" and n.v[0] is None and not r.elided:
-                # `>` needs the rule's start mark, which only elided rules declare
-                has_elide = any(m.k == "elide" for m in r.regex.walk())
-                if not has_elide:
-                    out.append("F5_whole_create_without_elision")
+            if r.name == start and n.k == "rename":
+                out.append("rename_in_start_rule")     # compiles since 1129762; what the root is called then is unspecified
     # rules reachable only from a part
     reach = set()
     st = [start]
@@ -517,11 +518,4 @@ def shape_hazards(g: Grammar, rs: RefSets):
             for n in rules[nm].regex.walk():
                 if n.k == "name" and n.v[:1].islower():
                     st.append(n.v)
-    for p in g.parts:
-        if p not in reach:
-            pr = rules[p]
-            if pr.regex is not None:
-                for n in pr.regex.walk():
-                    if n.k == "name" and n.v[:1].islower() and n.v not in reach:
-                        out.append("F5_rule_only_reachable_from_part")
     return out
